@@ -2,11 +2,13 @@ import CvDriver.Base
 import CvDriver.C18
 import CvDriver.C15
 import CvDriver.C11
+import CvDriver.Mod
 open Drv
 
 structure DState where
   grid : GridSt := {}
   ms : MsSt := {}
+  mod : ModSt := {}
 
 def stepLine (s : DState) (ln : Nat) (line : String) : DState × List String :=
   let t := toks line
@@ -21,6 +23,9 @@ def stepLine (s : DState) (ln : Nat) (line : String) : DState × List String :=
     | none =>
     match c11 s.ms ln t with
     | some (m, o) => ({ s with ms := m }, o)
+    | none =>
+    match modOps s.mod ln t with
+    | some (m, o) => ({ s with mod := m }, o)
     | none => (s, [])
 
 partial def loop (h : IO.FS.Stream) (s : DState) (ln : Nat) : IO Unit := do
